@@ -85,57 +85,52 @@ Ltac ps_open_d1 :=
   let r := fresh "r" in intro r; destruct r; cbv beta iota.
 Ltac ps_fail_d1 := apply ps_disc0_disc1; apply ps_fail_exit_d0.
 
-Theorem ps_obs_added_d1 : forall la lt fuel a, ps_disc1 (ps_obs_added la lt fuel a).
+(* the common shape: at most one commit, whatever the calls return *)
+Lemma ps_txn_body_d1 : forall f loop tail horig,
+  (forall ho hn, ps_disc0 (loop ho hn)) -> (forall hn, ps_disc0 (tail hn)) ->
+  ps_disc1 (ps_txn_body f loop tail horig).
 Proof.
-  intros. unfold ps_obs_added. ps_open_d1; ps_open_d1; try ps_fail_d1.
-  all: apply ps_disc1_bind0; [first [apply ps_obs_copy_d0|constructor]|].
-  all: intros [[|]|]; [|ps_fail_d1|constructor].
-  all: apply ps_disc1_bind0; [apply ps_obs_write_d0|].
-  all: intros [|]; [apply ps_commit_d1|ps_fail_d1].
+  intros f loop tail horig Hl Ht. unfold ps_txn_body. ps_open_d1; try ps_fail_d1.
+  apply ps_disc1_bind0; [destruct horig; [apply Hl|constructor]|].
+  intros [[|]|]; [|ps_fail_d1|constructor].
+  apply ps_disc1_bind0; [apply Ht|].
+  intros [|]; [apply ps_commit_d1|ps_fail_d1].
 Qed.
+
+Theorem ps_txn_d1 : forall f must ret loop tail,
+  (forall ho hn, ps_disc0 (loop ho hn)) -> (forall hn, ps_disc0 (tail hn)) ->
+  ps_disc1 (ps_txn f must ret loop tail).
+Proof.
+  intros f must ret loop tail Hl Ht. unfold ps_txn.
+  ps_open_d1; destruct must; try apply PsDisc1Ret; apply ps_txn_body_d1; assumption.
+Qed.
+
+Lemma ps_no_tail_d0 : forall hn, ps_disc0 (ps_no_tail hn).
+Proof. intro. constructor. Qed.
+
+Lemma ps_cnt_put_d0 : forall name v hn, ps_disc0 (ps_cnt_put name v hn).
+Proof.
+  intros. unfold ps_cnt_put. apply PsDisc0Do; [reflexivity|].
+  intros [h| |ok d|n]; constructor.
+Qed.
+
+Theorem ps_obs_added_d1 : forall la lt fuel a, ps_disc1 (ps_obs_added la lt fuel a).
+Proof. intros. apply ps_txn_d1; intros; [apply ps_obs_copy_d0|apply ps_obs_write_d0]. Qed.
 
 Theorem ps_obs_deleted_d1 : forall la lt fuel key, ps_disc1 (ps_obs_deleted la lt fuel key).
-Proof.
-  intros. unfold ps_obs_deleted. ps_open_d1; try apply PsDisc1Ret.
-  ps_open_d1; try ps_fail_d1.
-  apply ps_disc1_bind0; [apply ps_obs_copy_d0|].
-  intros [[|]|]; [apply ps_commit_d1|ps_fail_d1|constructor].
-Qed.
+Proof. intros. apply ps_txn_d1; intros; [apply ps_obs_copy_d0|apply ps_no_tail_d0]. Qed.
 
 Theorem ps_cnt_track_d1 : forall fuel name v, ps_disc1 (ps_cnt_track fuel name v).
-Proof.
-  intros. unfold ps_cnt_track. ps_open_d1; ps_open_d1; try ps_fail_d1.
-  all: apply ps_disc1_bind0; [first [apply ps_cnt_copy_d0|constructor]|].
-  all: intros [[|]|]; [|ps_fail_d1|constructor].
-  all: apply PsDisc1Quiet; [reflexivity|].
-  all: intros [h'| |ok' d'|nn]; try ps_fail_d1.
-  all: destruct (nn <? 0); [ps_fail_d1|apply ps_commit_d1].
-Qed.
+Proof. intros. apply ps_txn_d1; intros; [apply ps_cnt_copy_d0|apply ps_cnt_put_d0]. Qed.
 
 Theorem ps_cnt_deleted_d1 : forall fuel name, ps_disc1 (ps_cnt_deleted fuel name).
-Proof.
-  intros. unfold ps_cnt_deleted. ps_open_d1; try apply PsDisc1Ret.
-  ps_open_d1; try ps_fail_d1.
-  apply ps_disc1_bind0; [apply ps_cnt_copy_d0|].
-  intros [[|]|]; [apply ps_commit_d1|ps_fail_d1|constructor].
-Qed.
+Proof. intros. apply ps_txn_d1; intros; [apply ps_cnt_copy_d0|apply ps_no_tail_d0]. Qed.
 
 Theorem ps_dyn_added_d1 : forall fuel a, ps_disc1 (ps_dyn_added fuel a).
-Proof.
-  intros. unfold ps_dyn_added. ps_open_d1; ps_open_d1; try ps_fail_d1.
-  all: apply ps_disc1_bind0; [first [apply ps_dyn_copy_d0|constructor]|].
-  all: intros [b|]; [|constructor].
-  all: apply ps_disc1_bind0; [apply ps_dyn_write_d0|].
-  all: intros [|]; [apply ps_commit_d1|ps_fail_d1].
-Qed.
+Proof. intros. apply ps_txn_d1; intros; [apply ps_dyn_copy_d0|apply ps_dyn_write_d0]. Qed.
 
 Theorem ps_dyn_deleted_d1 : forall fuel name, ps_disc1 (ps_dyn_deleted fuel name).
-Proof.
-  intros. unfold ps_dyn_deleted. ps_open_d1; try apply PsDisc1Ret.
-  ps_open_d1; try ps_fail_d1.
-  apply ps_disc1_bind0; [apply ps_dyn_copy_d0|].
-  intros [b|]; [apply ps_commit_d1|constructor].
-Qed.
+Proof. intros. apply ps_txn_d1; intros; [apply ps_dyn_copy_d0|apply ps_no_tail_d0]. Qed.
 
 (* coap_op_resource_deleted: two updates in sequence *)
 Theorem ps_res_deleted_d : forall fuel hd hc name, ps_disc (ps_res_deleted fuel hd hc name).
